@@ -132,6 +132,8 @@ impl Default for C08 {
             "wrong_owner_clone_rejected",
             "duplicate_account_mutation_rejected",
             "unsigned_rejected",
+            "consistent_foreign_bank_mutation",
+            "foreign_group_with_its_role_holder_mutation",
         ]);
         C08 {
             cov,
@@ -442,9 +444,33 @@ impl C08 {
         signer: Option<bool>,
         extra: Option<(Pubkey, Account)>,
     ) -> (bool, Option<ErrSource>, u32) {
+        self.run_mutation_multi(s, ix_i, slot_i, new_key, signer, extra, &[])
+    }
+
+    /// As `run_mutation`, with further slots of the same instruction rewritten consistently
+    /// (`more`: slot index, new key, becomes-signer).
+    #[allow(clippy::too_many_arguments)]
+    fn run_mutation_multi(
+        &mut self,
+        s: &Step,
+        ix_i: usize,
+        slot_i: usize,
+        new_key: Pubkey,
+        signer: Option<bool>,
+        extra: Option<(Pubkey, Account)>,
+        more: &[(usize, Pubkey, bool)],
+    ) -> (bool, Option<ErrSource>, u32) {
         let mut tx: Tx = s.tx.clone();
         tx.fail_cpi_at = None;
         tx.actor = "attacker";
+        for (i, k, sg) in more {
+            if let Some(m) = tx.ixs[ix_i].accounts.get_mut(*i) {
+                m.pubkey = *k;
+                if *sg {
+                    m.is_signer = true;
+                }
+            }
+        }
         {
             let old_key = tx.ixs[ix_i].accounts[slot_i].pubkey;
             let m = &mut tx.ixs[ix_i].accounts[slot_i];
@@ -613,6 +639,88 @@ impl Monitor for C08 {
                                 ));
                             } else if kind == "clone_wrong_owner" {
                                 self.cov.probe("wrong_owner_clone_rejected");
+                            }
+                        }
+                    }
+                }
+            }
+            // consistent multi-slot substitutions: everything about the instruction is coherent
+            // except the one relation under test (bank <-> group), so that no incidental check
+            // (mint of a destination, vault seeds, token program) can mask a missing binding
+            if let (Some(gi), Some(bi)) = (slots.iter().position(|x| *x == Slot::Group), slots.iter().position(|x| *x == Slot::Bank)) {
+                if ix.tag != "liquidate" && ix.tag != "clone_emode" {
+                    let gk = ix.accounts[gi].pubkey;
+                    let bk = ix.accounts[bi].pubkey;
+                    let foreign = model::all_banks(st_before).into_iter().find(|(_, b)| b.group != gk);
+                    let this_bank = model::bank_of(st_before, &bk);
+                    if let (Some((fk, fb)), Some(tb)) = (foreign, this_bank) {
+                        // (a) the signer's own group, a foreign bank with all of its own accessories
+                        let fprog = st_before.get(&fb.mint).map(|m| m.owner).unwrap_or(spl_token_id());
+                        let mut more: Vec<(usize, Pubkey, bool)> = Vec::new();
+                        let token_of = |mint: &Pubkey, like: Option<Pubkey>| -> Option<Pubkey> {
+                            let mut any = None;
+                            for (k, a) in st_before.accounts.iter() {
+                                if (a.owner == spl_token_id() || a.owner == token22_id()) && a.data.len() >= 165 && fixtures::token_mint(&a.data) == *mint {
+                                    if Some(fixtures::token_owner(&a.data)) == like {
+                                        return Some(*k);
+                                    }
+                                    if any.is_none() && *k != fb.liquidity_vault && *k != fb.insurance_vault && *k != fb.fee_vault {
+                                        any = Some(*k);
+                                    }
+                                }
+                            }
+                            any
+                        };
+                        for (i, sl) in slots.iter().enumerate() {
+                            let Some(m) = ix.accounts.get(i) else { continue };
+                            match sl {
+                                Slot::Vault(kind) => more.push((i, crate::ix::vault_pda(&fk, vault_kind(*kind)), false)),
+                                Slot::VaultAuth(kind) => more.push((i, crate::ix::vault_auth_pda(&fk, vault_kind(*kind)), false)),
+                                Slot::TokenProgram => more.push((i, fprog, false)),
+                                Slot::Free | Slot::StoredDest => {
+                                    if let Some(a) = st_before.get(&m.pubkey) {
+                                        if (a.owner == spl_token_id() || a.owner == token22_id()) && a.data.len() >= 165 && fixtures::token_mint(&a.data) == tb.mint {
+                                            if let Some(k) = token_of(&fb.mint, Some(fixtures::token_owner(&a.data))) {
+                                                more.push((i, k, false));
+                                            }
+                                        }
+                                    }
+                                }
+                                _ => {}
+                            }
+                        }
+                        let (ok, _, code) = self.run_mutation_multi(s, ix_i, bi, fk, None, None, &more);
+                        self.cov.probe("consistent_foreign_bank_mutation");
+                        self.cov.eval(format!("{}|{}|foreign_bank_with_accessories|{}", ix.tag, bi, ok as u8));
+                        let _ = code;
+                        if ok {
+                            out.push(viol("C08", "accepted_with_substituted_account", ix.tag,
+                                format!("slot {bi} (Bank): bank {fk} of another group, with its own vaults / mint-matching token accounts, instead of {bk} under group {gk}"), idx));
+                        }
+                        // (b) this bank, but the foreign group together with that group's holder of
+                        // the signing role
+                        if let Some(si) = slots.iter().position(|x| matches!(x, Slot::Signer(_))) {
+                            if let (Slot::Signer(role), Some(fg)) = (slots[si], model::group_of(st_before, &fb.group)) {
+                                let holder = match role {
+                                    Role::GroupAdmin | Role::AdminOrEmode | Role::Bankruptcy => Some(fg.admin),
+                                    Role::Curve => Some(fg.delegate_curve_admin),
+                                    Role::Limit => Some(fg.delegate_limit_admin),
+                                    Role::Emode => Some(fg.emode_admin),
+                                    Role::Emissions => Some(fg.delegate_emissions_admin),
+                                    Role::Metadata => Some(fg.metadata_admin),
+                                    Role::Risk => Some(fg.risk_admin),
+                                    _ => None,
+                                };
+                                if let Some(h) = holder.filter(|h| *h != Pubkey::default() && *h != ix.accounts[si].pubkey) {
+                                    let extra = if s.pre.get(&h).is_none() { Some((h, Account::system(1_000_000_000))) } else { None };
+                                    let (ok, _, _) = self.run_mutation_multi(s, ix_i, gi, fb.group, None, extra, &[(si, h, true)]);
+                                    self.cov.probe("foreign_group_with_its_role_holder_mutation");
+                                    self.cov.eval(format!("{}|{}|foreign_group_and_its_role_holder|{}", ix.tag, gi, ok as u8));
+                                    if ok {
+                                        out.push(viol("C08", "accepted_with_substituted_account", ix.tag,
+                                            format!("slot {gi} (Group): group {} signed by its own role holder {h}, acting on bank {bk} of group {gk}", fb.group), idx));
+                                    }
+                                }
                             }
                         }
                     }
